@@ -305,6 +305,24 @@ def r1_who_writes_pos(facts, rep):
                 fn, ", assigns pos" if fn == "step" else "", pth))
             continue
         gets = flow.calls_named(b, lambda n: n == "core::str::<impl str>::get")
+        if not gets:
+            # the read sits in a helper of the lexer (`fn rest(&self) -> &str { self.source.get(self.pos..).unwrap_or("") }`)
+            frontier, seen_ = [b], {b.path}
+            for _ in range(3):
+                nxt = []
+                for cb in frontier:
+                    for blk_, t_, sp_, nm_ in cb.calls():
+                        hb = facts.fn(nm_)
+                        if hb is None or hb.path in seen_ or not hb.path.startswith("syntax::lexer::") or hb.arg_count != 1 or "Lexer" not in hb.local_ty(1):
+                            continue
+                        seen_.add(hb.path)
+                        nxt.append(hb)
+                hit = [hb for hb in nxt if flow.calls_named(hb, lambda n: n == "core::str::<impl str>::get")]
+                if hit:
+                    b = hit[0]
+                    gets = flow.calls_named(b, lambda n: n == "core::str::<impl str>::get")
+                    break
+                frontier = nxt
         okk = bool(gets)
         for bid, t, sp, _ in gets:
             src = flow.field_origins(b, t["args"][0])
